@@ -4,6 +4,7 @@ import Driver.Cache
 import Driver.Bytes
 import Driver.Watch
 import Driver.Src
+import Driver.Reloader
 /-!
 # amdrv — the model driver
 
@@ -30,6 +31,7 @@ def dispatch (e : Engines) (ws : List String) : Engines × String :=
     else if w.startsWith "by." then let (s, o) := Driver.Bytes.step e.bytes ws; ({ e with bytes := s }, o)
     else if w.startsWith "watch." then
       let (s, o) := Driver.Watch.step e.watch ws; ({ e with watch := s }, o)
+    else if w.startsWith "hr." || w.startsWith "idle." then (e, Driver.Reloader.step ws)   -- C08 / C15
     else if w.startsWith "s." then let (s, o) := Driver.Src.stepAll e.src ws; ({ e with src := s }, o)
     else
       let (s, o) := Driver.Cache.step e.cache ws; ({ e with cache := s }, o)
